@@ -31,7 +31,7 @@ CONSTANTS MaxOps,      \* identifier-allocating requests (publish q>0, subscribe
           IdMax,       \* packet identifiers are 1..IdMax
           Cap,         \* capacity of retained / release lists (8 in the code)
           CtlCap,      \* capacity of the pending-control list (8 in the code)
-          RMs,         \* Receive Maximum values a CONNACK may carry (already clamped to Cap)
+          RMs,         \* Receive Maximum values a CONNACK may carry (the client clamps them to Cap)
           MaxIn,       \* broker-initiated publishes
           MaxFail,     \* acknowledgements with a failure code + stale acknowledgements
           MaxQ0,       \* QoS 0 publishes
@@ -262,12 +262,17 @@ ConnAckIn(cl, p) ==
       c1 == IF p.sp \/ (bad /\ "reset_after_validation" \in Dev) THEN cl
             ELSE [cl EXCEPT !.sp = FALSE, !.gen = @ + 1, !.nid = 1, !.ret = << >>, !.rel = << >>,
                             !.ctl = << >>, !.sids = {}]
-      q == IF "quota_reset_on_resume" \in Dev THEN p.rm ELSE Sat(p.rm - Unresolved(c1))
+      \* the broker's Receive Maximum counts only up to the client's own capacity (max.min(local_quota));
+      \* deviation "quota_unclamped_init": the starting quota takes the broker's value as it is
+      lim == Min(p.rm, Cap)
+      q == IF "quota_reset_on_resume" \in Dev THEN lim
+           ELSE IF "quota_unclamped_init" \in Dev THEN Sat(p.rm - Unresolved(c1))
+           ELSE Sat(lim - Unresolved(c1))
   IN
   \* a success CONNACK whose properties are refused (Receive Maximum 0, Maximum QoS 3, over-long
   \* assigned identifier): the connection fails, nothing of the new connection is activated
   IF bad THEN Ret(HandleDisconnect(c1), Err("InvalidPacket")) ELSE
-  Ret([c1 EXCEPT !.sp = TRUE, !.quota = q, !.maxq = p.rm, !.live = TRUE, !.up = TRUE,
+  Ret([c1 EXCEPT !.sp = TRUE, !.quota = q, !.maxq = lim, !.live = TRUE, !.up = TRUE,
                     !.event = IF p.sp THEN "Reconnected" ELSE "Connected"],
          Ok(IF p.sp THEN "Reconnected" ELSE "Connected"))
 
